@@ -302,3 +302,4 @@ pub(crate) fn solo_pay_all() {
     }
     vcover!("solo_pay_all_end");
 }
+
